@@ -172,6 +172,19 @@ def cases(tier, seed):
                                     c.update(DAV_DEFAULT)
                                 out.append(c)
 
+    # ---- svd of square Hermitian indefinite operators (flag detected / given by the caller / matrix-free)
+    for nn in ((3, 5) if not thorough else (2, 3, 5, 6)):
+        for (m, d) in mdt:
+            for opkind in ("dense", "hflag", "mfree"):
+                for b in ("-", "2"):
+                    for k in range(1, nn + 1):
+                        for mode in ("uppest", "lowest"):
+                            c = {"fam": "svd", "method": m, "opkind": opkind, "m": nn, "n": nn, "k": k, "mode": mode,
+                                 "sv": "symind", "batch": b, "dtype": d, "plane": 0}
+                            if m == "davidson":
+                                c.update(DAV_DEFAULT)
+                            out.append(c)
+
     # ---- extra value planes (thorough): numeric instance chosen by VERIF_SEED
     if thorough:
         for plane in (1, 2, 3):
@@ -396,14 +409,28 @@ def run_svd(cfg):
     sv_t = torch.tensor(sv, dtype=torch.float64)
     U = orth(m, dt, g, b)[..., :, :r]
     Vt = orth(n, dt, g, b)[..., :, :r]
+    if cfg["sv"] == "symind":
+        # square Hermitian INDEFINITE matrix (eigenvalues of both signs, |eigenvalue| = the singular values): its
+        # singular triplets are not its extreme eigenpairs
+        sg = torch.tensor([(-1.0 if (j % 2 == 0) else 1.0) for j in range(r)], dtype=torch.float64).to(dt)
+        Vt = U
+        U = U * sg
     A = (U * sv_t.to(dt)) @ hc(Vt)
+    if cfg["sv"] == "symind":
+        A = 0.5 * (A + hc(A))
     upper = _upper(cfg["mode"])
     sel = list(range(r - k, r)) if upper else list(range(k))
     s_ref = torch.linalg.svdvals(A).flip(-1)                   # ascending
     if abserr(s_ref, sv_t.expand(b + (r,))) > 1e-12:
         raise AssertionError("harness: svd construction and svdvals disagree")
 
-    Aop = gen_op(cfg["opkind"], A)
+    if cfg["sv"] == "symind":
+        import xitorch as _xt
+        # dense: LinearOperator.m detects the symmetry itself; hflag: flagged by the caller; mfree: mv-only flagged
+        Aop = {"dense": lambda: _xt.LinearOperator.m(A), "hflag": lambda: herm_op("dense", A),
+               "mfree": lambda: herm_op("mfree", A)}[cfg["opkind"]]()
+    else:
+        Aop = gen_op(cfg["opkind"], A)
     dav = cfg["method"] == "davidson"
     torch.manual_seed(20240 + n)
     o = call(svd, Aop, k=k, mode=cfg["mode"], method=cfg["method"], **_fwd_opts(cfg))
